@@ -10,8 +10,8 @@ def st(run, checks, shards=1, race=False, timeout=900, env=None, **kw):
 PROPS = {
     "C01": {
         "pkg": "core", "level": "exploration",
-        "quick": {"stages": [st("^TestC01", 2500), st("^TestC01Gate", 250, pkg="session")]},
-        "thorough": {"stages": [st("^TestC01", 30000, shards=16, timeout=2400), st("^TestC01Gate", 3000, shards=4, pkg="session", timeout=2400)],
+        "quick": {"stages": [st("^TestC01(Authenticity|ReferenceAgainstRealEvents)", 2500), st("^TestC01ManyAuthors", 2), st("^TestC01Gate", 250, pkg="session")]},
+        "thorough": {"stages": [st("^TestC01(Authenticity|ReferenceAgainstRealEvents)", 30000, shards=14, timeout=2400), st("^TestC01ManyAuthors", 40, shards=4, timeout=2400), st("^TestC01Gate", 3000, shards=4, pkg="session", timeout=2400)],
                      "fuzz": [{"target": "FuzzC01Serialize", "seconds": 120}]},
     },
     "C03": {
@@ -41,22 +41,22 @@ PROPS = {
     },
     "C19": {
         "pkg": "handlers", "level": "exploration",
-        "quick": {"stages": [st("^TestC19(Metrics|Concurrent)", 1500), st("^TestC19ParallelDirections", 120, shards=4)]},
-        "thorough": {"stages": [st("^TestC19(Metrics|Concurrent)", 30000, shards=12, timeout=3000), st("^TestC19ParallelDirections", 4000, shards=8, timeout=3000), st("^TestC19", 3000, shards=4, race=True, timeout=3000)]},
+        "quick": {"stages": [st("^TestC19(Metrics|Concurrent)", 1500), st("^TestC19ParallelDirections", 120, shards=4), st("^TestC19Soak", 12, shards=2)]},
+        "thorough": {"stages": [st("^TestC19(Metrics|Concurrent)", 30000, shards=12, timeout=3000), st("^TestC19ParallelDirections", 4000, shards=8, timeout=3000), st("^TestC19Soak", 400, shards=4, timeout=3000), st("^TestC19(Metrics|Concurrent|ParallelDirections)", 3000, shards=4, race=True, timeout=3000)]},
     },
     "C08": {
         "pkg": "handlers", "level": "exploration",
-        "quick": {"stages": [st("^TestMerge(C08C09|Regress)", 6000), st("^TestMergeFreeRunning", 1500)]},
-        "thorough": {"stages": [st("^TestMerge(C08C09|Regress)", 200000, shards=10, timeout=3000), st("^TestMergeFreeRunning", 40000, shards=4, timeout=3000), st("^TestMerge", 10000, shards=2, race=True, timeout=3000)]},
+        "quick": {"stages": [st("^TestMerge(C08C09|Regress)", 6000), st("^TestMergeFreeRunning", 1500), st("^TestMergeScale", 60, shards=2)]},
+        "thorough": {"stages": [st("^TestMerge(C08C09|Regress)", 200000, shards=10, timeout=3000), st("^TestMergeFreeRunning", 40000, shards=4, timeout=3000), st("^TestMerge(C08C09|Regress|FreeRunning)", 10000, shards=2, race=True, timeout=3000), st("^TestMergeScale", 1500, shards=4, timeout=3000)]},
     },
     "C09": {
         "pkg": "handlers", "level": "exploration",
-        "quick": {"stages": [st("^TestMerge(C08C09|Regress)", 6000), st("^TestMergeFreeRunning", 1500)]},
-        "thorough": {"stages": [st("^TestMerge(C08C09|Regress)", 200000, shards=10, timeout=3000), st("^TestMergeFreeRunning", 40000, shards=4, timeout=3000), st("^TestMerge", 10000, shards=2, race=True, timeout=3000)]},
+        "quick": {"stages": [st("^TestMerge(C08C09|Regress)", 6000), st("^TestMergeFreeRunning", 1500), st("^TestMergeScale", 60, shards=2)]},
+        "thorough": {"stages": [st("^TestMerge(C08C09|Regress)", 200000, shards=10, timeout=3000), st("^TestMergeFreeRunning", 40000, shards=4, timeout=3000), st("^TestMerge(C08C09|Regress|FreeRunning)", 10000, shards=2, race=True, timeout=3000), st("^TestMergeScale", 1500, shards=4, timeout=3000)]},
     },
     "C06": {
         "pkg": "sqlite", "level": "exploration",
-        "quick": {"stages": [st("^TestC06", 500)]},
+        "quick": {"stages": [st("^TestC06", 170, shards=3)]},
         "thorough": {"stages": [st("^TestC06", 4000, shards=16, timeout=3000)]},
     },
     "C14": {
